@@ -5,6 +5,7 @@ package main
 
 import (
 	"fmt"
+	"go/constant"
 	"go/token"
 	"go/types"
 	"strings"
@@ -26,6 +27,11 @@ func (x *Exec) execCall(f *Frame, i *ssa.Call) {
 	if callee != nil && callee.Pkg != nil && callee.Pkg.Pkg.Path() == "sort" && (callee.Name() == "Slice" || callee.Name() == "SliceStable") {
 		x.execSortSlice(f, i)
 		return
+	}
+	if callee != nil && callee.Pkg != nil && callee.Pkg.Pkg.Path() == "fmt" && callee.Name() == "Sprintf" {
+		if x.execSprintf(f, i) {
+			return
+		}
 	}
 	if callee != nil && callee.Pkg != nil && callee.Pkg.Pkg.Path() == "google.golang.org/protobuf/proto" && (callee.Name() == "Unmarshal" || callee.Name() == "Marshal") {
 		x.execProto(f, i, callee)
@@ -922,4 +928,85 @@ func (x *Exec) execProto(f *Frame, i *ssa.Call, callee *ssa.Function) {
 		}
 	}
 	x.bindCallResult(f, i, callee.Signature, out)
+}
+
+// varargsOf returns the SSA values packed into the variadic slice v (built in place by the compiler
+// as new [N]T; stores; slice), or nil.
+func varargsOf(v ssa.Value) []ssa.Value {
+	sl, ok := v.(*ssa.Slice)
+	if !ok || sl.Low != nil || sl.High != nil {
+		return nil
+	}
+	al, ok := sl.X.(*ssa.Alloc)
+	if !ok {
+		return nil
+	}
+	at, ok := al.Type().(*types.Pointer).Elem().Underlying().(*types.Array)
+	if !ok {
+		return nil
+	}
+	out := make([]ssa.Value, at.Len())
+	for _, ref := range *al.Referrers() {
+		ia, ok := ref.(*ssa.IndexAddr)
+		if !ok {
+			continue
+		}
+		c, ok := ia.Index.(*ssa.Const)
+		if !ok {
+			return nil
+		}
+		k := int(c.Int64())
+		for _, r2 := range *ia.Referrers() {
+			if st, ok := r2.(*ssa.Store); ok && st.Addr == ia {
+				out[k] = st.Val
+			}
+		}
+	}
+	for _, o := range out {
+		if o == nil {
+			return nil
+		}
+	}
+	return out
+}
+
+// execSprintf: fmt.Sprintf with a constant format and integer/string arguments is a deterministic
+// function of its arguments: modelled as an uninterpreted function named after the format, so that
+// two calls with the same format and equal arguments give equal strings (nothing else is known).
+func (x *Exec) execSprintf(f *Frame, i *ssa.Call) bool {
+	args := i.Call.Args
+	fc, ok := args[0].(*ssa.Const)
+	if !ok || fc.Value == nil {
+		return false
+	}
+	vs := varargsOf(args[1])
+	if vs == nil {
+		return false
+	}
+	var ts []Term
+	var sorts []Sort
+	for _, v := range vs {
+		mi, ok := v.(*ssa.MakeInterface)
+		if !ok {
+			return false
+		}
+		t := x.term(f, mi.X)
+		if t.Sort != SInt && t.Sort != SStr {
+			return false
+		}
+		if !isInteger(mi.X.Type()) && t.Sort == SInt {
+			return false // pointers etc.
+		}
+		ts = append(ts, t)
+		sorts = append(sorts, t.Sort)
+	}
+	format := constant.StringVal(fc.Value)
+	name := "sprintf_" + sanitize(truncate(format, 24)) + "_" + shortHash(format)
+	x.b.DeclFun(name, sorts, SStr)
+	r := x.b.Def("spf", App(SStr, name, ts...))
+	x.assume(x.cur.reach, x.typeFact(r, types.Typ[types.String], x.cur.Alloc(x)))
+	x.sprintfNames[format] = name
+	f.regs[i] = Val{T: r}
+	x.note("fmt.Sprintf with a constant format and integer/string arguments is a deterministic (uninterpreted) function of its arguments")
+	return true
 }
